@@ -16,6 +16,10 @@ func init() {
 		Explain: otherNote + "C15: decided = every documented exclusion (guard table, 90+ rows) leads to a failure return on every path under its abstract scenario, with no reachable constant index into a split ID and no nil dereference before the check; no strconv error of caller text is dropped or overwritten; Point fields are written only by guarded setters with the documented rounding; failure returns of the overlap checks and tile conversions carry false / nil.",
 		Canary: []CanaryExpect{
 			{Rule: "ERRUSED", Bad: "canaryBadDroppedAtoi", Good: "canaryGoodCheckedAtoi"},
+			{Rule: "HANDPARSE", Bad: "canaryBadParseWrap", Good: "canaryGoodParseCutoff"},
+			{Rule: "HANDPARSE", Bad: "canaryBadParseLoneSign", Good: "canaryGoodParseCutoff"},
+			{Rule: "SIGNED-FIELD", Bad: "canaryBadDigitRuns", Good: "canaryGoodSplit"},
+			{Rule: "SIGNED-FIELD", Bad: "canaryBadUnsignedComponents", Good: "canaryGoodSplit"},
 			{Rule: "GUARD", Bad: "canaryBadZoomGuard", Good: "canaryGoodZoomGuard"},
 			{Rule: "PARSE-BASE", Bad: "canaryBadBase0", Good: "canaryGoodCheckedAtoi"},
 			{Rule: "ERRSWALLOW", Bad: "canaryBadSwallowErr", Good: "canaryGoodReportErr"},
@@ -58,6 +62,8 @@ func runC15(w *World, r *Report, tier string) {
 	guardRows(w, r, "C15")
 	ruleErrUsed(w, r, nil)
 	ruleErrSwallow(w, r, nil)
+	ruleHandParse(w, r)
+	ruleSignedField(w, r)
 	rulePointFields(w, r)
 	for _, n := range []string{"detector.CheckSpatialIdsArrayOverlap", "detector.CheckExtendedSpatialIdsOverlap", "detector.CheckExtendedSpatialIdsArrayOverlap",
 		"transform.ConvertTileXYZsToExtendedSpatialIDs", "transform.ConvertTileXYZsToSpatialIDs"} {
